@@ -365,9 +365,11 @@ def r13_4(ck):
     skip = set()
     for n, info in cfg.info.items():
         if info['kind'] == 'edge' and info.get('cond') is not None and \
-                A.unparse(info['cond']) == 'self._pending_command' and \
                 info['pol'] is False:
-            skip.add(n)
+            ta = A.cond_atoms(info['cond'], True)
+            if ta and ta <= {('truthy', 'self._pending_command'),
+                             ('isnot', 'self._pending_command', 'None')}:
+                skip.add(n)
     bypass = isinstance(A.arg_of(sends[0], 3, 'run_pre_check'),
                         ast.Constant)
     ok = (bool(drains) and cfg.must_pass(cfg.entry, sn, drains | skip)) \
